@@ -113,7 +113,7 @@ func RunCase(ck *Check, agg *Agg, w *worker, seed int64, tier string, idx int, r
 		w.caseIdx.Store(int64(idx))
 		w.casePos.Store(int64(w.pos))
 		w.caseWall.Store(time.Now().UnixNano())
-		w.caseStart.Store(cpu0)
+		w.caseStart.Store(-1) // the clock starts at the first Journal call
 	}
 	func() {
 		defer func() {
